@@ -25,6 +25,7 @@ seeds = {
     'invalid-calls': base + [('G_NEW_INVALID', 3, 1, 2, 1), ('S_NEW_INVALID', 0, 2, 1, 3), ('P_NEW_BADCOUNT', 1, 0, 3, 1), ('P_LINCOMB_BAD', 1, 2, 0, 1), ('P_IADD', 1, 1, 0, 0), ('P_ISCALE', 1, 0, 0, 3)],
     'evaluate-then-mutate': base + [('P_EVAL_MUTATE', 1, 0, 0, 1), ('P_EVAL_MUTATE', 2, 4, 0, 0), ('P_EVAL_MUTATE', 3, 9, 0, 2), ('P_EVAL_MUTATE', 2, 13, 0, 1), ('P_EVAL_MUTATE', 3, 16, 0, 0), ('P_EVAL', 1, 3, 0, 1)],
     'interpolate-and-gaps': base + [('P_INTERPOLATE', 0, 1, 3, 1), ('P_INTERPOLATE', 2, 0, 7, 0), ('P_INTERPOLATE', 1, 4, 2, 2), ('S_NEW', 0, 4, 1), ('P_NEW', 1, 6, 5), ('P_ADD', 1, 1, 1, 3), ('P_SUB', 1, 1, 3, 1), ('P_IADD', 1, 1, 1, 3), ('G_NEW_INVALID', 3, 1, 2, 4), ('G_NEW_INVALID', 3, 1, 0, 5)],
+    'regrid': base + [('G_NEW', 3, 1, 2, 1), ('S_WHOLE', 1), ('P_NEW', 1, 6, 2), ('P_NEW', 2, 6, 4), ('P_REGRID', 1, 0, 0, 1), ('P_REGRID', 3, 2, 0, 1), ('P_REGRID', 12, 4, 1, 0), ('P_REGRID', 5, 6, 0, 2), ('P_REGRID', 6, 8, 1, 1), ('P_ADD', 1, 1, 0, 2)],
     'apply-and-lincomb': base + [('P_APPLY', 1, 0, 0), ('P_APPLY', 2, 4, 0), ('P_APPLY', 3, 5, 0), ('P_APPLY', 0, 6, 1), ('P_LINCOMB', 1, 3, 0, 5), ('P_SCALE', 1, 1, 0, 35), ('P_DIV', 2, 2, 0, 3), ('P_NEG', 0, 0, 1), ('P_COPY', 1, 0, 0), ('P_ISCALE', 1, 0, 2, 3)],
 }
 out = os.path.join(HERE, 'corpus', 'history')
